@@ -8,6 +8,7 @@ import EpgVerif.Model.Shape
 import EpgVerif.Model.Sim
 import EpgVerif.Model.RF
 import EpgVerif.Model.Guards
+import EpgVerif.Model.ND
 /-
   Line-protocol driver over the executable model at `K := CF` (DESIGN Appendix A).
   One request per line; floats travel as the decimal of their IEEE-754 bits.
@@ -116,6 +117,9 @@ structure DState where
   js : SM JC := SM.init (1 : JC)
   vars : Array String := #[]
   coll : Coll.C := Coll.init none 0
+  nds : NDS K4 CF := NDS.init (0 : K4) (1 : CF)
+  nops : Array (NOp K4 CF) := #[]
+  npd : CF := 1
   items : Array (Sim.Item CF) := #[]
   probes : Array (Option (Sim.AdcSpec CF)) := #[]
 
@@ -346,6 +350,13 @@ def guardCmd (toks : List String) : String :=
   | "pulse" :: xs => verdict (Guards.pulseTooLarge (fun (x : Float) => x > 1) (xs.map fOfTok))
   | _ => "bad-op"
 
+def k4OfToks (a b c t : String) : K4 := ⟨a.toInt!, b.toInt!, c.toInt!, t.toInt!⟩
+def dumpND (s : NDS K4 CF) : String :=
+  s!"nd {s.ent.length} " ++ " ".intercalate (s.ent.map (fun (k, p) => s!"{k.x} {k.y} {k.z} {k.t} {showPS p}"))
+def posCharF (kv : Array Float) (x : Array Float) (tv w : Float) (k : K4) : CF :=
+  CF.cexp ⟨0, Float.ofInt k.x * kv.getD 0 0 * x.getD 0 0 + Float.ofInt k.y * kv.getD 1 0 * x.getD 1 0
+    + Float.ofInt k.z * kv.getD 2 0 * x.getD 2 0 + Float.ofInt k.t * tv * w⟩
+
 def step (d : DState) (line : String) : DState × List String :=
   let toks := (line.trimAscii.toString.splitOn " ").filter (· ≠ "")
   match toks with
@@ -397,6 +408,18 @@ def step (d : DState) (line : String) : DState × List String :=
   | ["sapply"] => ({ d with sm := RF.runItems d.opts d.items.toList d.sm, items := #[] },
       [s!"dur {bits ((d.items.toList.map Sim.Item.dur).foldl (· + ·) (0 : CF)).re}"])
   | ["simrun"] => ({ d with items := #[], probes := #[] }, simRun d)
+  | ["ninit", pd] => ({ d with nds := NDS.init (0 : K4) (cOfTok pd), nops := #[], npd := cOfTok pd }, [])
+  | "npt" :: rest =>
+      (match parseOp rest with
+       | some op => ({ d with nds := d.nds.point op, nops := d.nops.push (.pt op) }, [])
+       | none => (d, [s!"bad-op {line}"]))
+  | ["nshift", a, b, c, t] =>
+      let g := k4OfToks a b c t
+      ({ d with nds := d.nds.shift g, nops := d.nops.push (.shift g) }, [])
+  | ["ndump"] => (d, [dumpND d.nds])
+  | ["nsynth", k0, k1, k2, x0, x1, x2, tv, w] =>
+      let χ := posCharF #[fOfTok k0, fOfTok k1, fOfTok k2] #[fOfTok x0, fOfTok x1, fOfTok x2] (fOfTok tv) (fOfTok w)
+      (d, ["ns " ++ showPS (d.nds.synthExec χ), "nb " ++ showPS (blochRunN χ d.npd d.nops.toList ⟨0, 0, d.npd⟩)])
   | "guard" :: rest => (d, [guardCmd rest])
   | ["dumpd"] => (d, dumpDiff d)
   | ["dumpj"] => (d, dumpJets d)
